@@ -90,3 +90,99 @@ def mixed_amount(ctx, name, unit, max_days):
     if ctx.bool(name + "_neg"):
         return -v
     return v
+
+
+# ------------------------------------------------------------------------------ zones
+def sym_offset(ctx, name):
+    """any UTC offset in -86399..86399 s as 3600H+60M+S (independent signed digits: no forks)"""
+    H = ctx.int(name + "_H", -23, 23)
+    M = ctx.int(name + "_M", -59, 59)
+    S = ctx.int(name + "_S", -59, 59)
+    return H * 3600 + M * 60 + S
+
+
+def sym_delta_seconds(ctx, name, max_days):
+    """a signed number of seconds within +-max_days as 86400d + 3600h + 60m + s"""
+    d = ctx.int(name + "_d", -max_days, max_days)
+    h = ctx.int(name + "_h", 0, 23)
+    m = ctx.int(name + "_m", 0, 59)
+    s = ctx.int(name + "_s", 0, 59)
+    return d * 86400 + h * 3600 + m * 60 + s
+
+
+def make_zone(ctx, key, anchor_ord, ntrans=1, max_days=400, kind="named"):
+    """A zone with `ntrans` transitions placed relative to midnight of ordinal `anchor_ord`.
+    Returns (tz, Ts, offs).  Offsets are arbitrary second-granular values; consecutive offsets
+    differ (a transition that changes nothing is not a transition)."""
+    offs = [sym_offset(ctx, f"{key[-1]}o{i}") for i in range(ntrans + 1)]
+    Ts = []
+    for i in range(ntrans):
+        Ts.append(anchor_ord * 86400 + sym_delta_seconds(ctx, f"{key[-1]}T{i}", max_days))
+        ctx.assume(offs[i] != offs[i + 1])
+    for i in range(1, ntrans):
+        ctx.assume(Ts[i] > Ts[i - 1])
+    if kind == "native":
+        tz = ctx.native_zone(key, Ts, offs)
+    else:
+        tz = ctx.sym_zone(key, Ts, offs)
+    return tz, Ts, offs
+
+
+def resolve_wall(w, Ts, offs, fold1):
+    """Constructive oracle for a naive wall time w (seconds from the ordinal origin) in a zone:
+    enumerate the UTC instants whose rendering is w.  Returns (w_out, off_out, nvalid) where
+    nvalid in {0 (skipped), 1 (unique), 2 (repeated)}; `fold1` selects the later occurrence /
+    the forward move."""
+    n = len(offs)
+    valid = []
+    for i in range(n):
+        u = w - offs[i]
+        c = True
+        if i > 0:
+            c = AND(c, u >= Ts[i - 1])
+        if i < n - 1:
+            c = AND(c, u < Ts[i])
+        valid.append(c)
+    nvalid = 0
+    for c in valid:
+        nvalid = nvalid + ite(c, 1, 0)
+    # unique / repeated: earliest valid segment (largest offset) for fold=0, latest for fold=1
+    first_off = offs[n - 1]
+    for i in range(n - 2, -1, -1):
+        first_off = ite(valid[i], offs[i], first_off)
+    last_off = offs[0]
+    for i in range(1, n):
+        last_off = ite(valid[i], offs[i], last_off)
+    # skipped: the transition k with  w - offs[k] >= T_k  and  w - offs[k+1] < T_k
+    gap_lo, gap_hi = offs[0], offs[0]
+    for k in range(n - 1):
+        ing = AND(w - offs[k] >= Ts[k], w - offs[k + 1] < Ts[k])
+        gap_lo = ite(ing, offs[k], gap_lo)
+        gap_hi = ite(ing, offs[k + 1], gap_hi)
+    none = nvalid == 0
+    gap = gap_hi - gap_lo
+    w_out = ite(none, ite(fold1, w + gap, w - gap), w)
+    off_out = ite(none, ite(fold1, gap_hi, gap_lo), ite(fold1, last_off, first_off))
+    return w_out, off_out, nvalid
+
+
+def render(u, Ts, offs):
+    """contract rendering of UTC instant u (seconds): (wall seconds, offset, fold)"""
+    off = contract_offset(u, Ts, offs)
+    return u + off, off, contract_fold(u, Ts, offs)
+
+
+def wall_s(x):
+    return cal.ymd2ord(x.year, x.month, x.day) * 86400 + cal.sod(x.hour, x.minute, x.second)
+
+
+def sym_wall(ctx, p, ylo, yhi):
+    y = ctx.year(p + "y", ylo, yhi)
+    m = ctx.int(p + "mo", 1, 12)
+    d = ctx.int(p + "d", 1, 31)
+    ctx.assume(d <= cal.days_in_month(y, m))
+    h = ctx.int(p + "h", 0, 23)
+    mi = ctx.int(p + "mi", 0, 59)
+    s = ctx.int(p + "s", 0, 59)
+    us = ctx.int(p + "us", 0, 999999)
+    return y, m, d, h, mi, s, us
